@@ -50,6 +50,13 @@ func (e *Engine) modOf(fn *ssa.Function, busy map[*ssa.Function]bool) *modInfo {
 	busy[fn] = true
 	e.scanBlocks(fn, fn.Blocks, mi, busy)
 	delete(busy, fn)
+	// lock ghosts: every function in scope is checked for lock balance (lockbalance obligations), so an
+	// uncontracted callee leaves the lock state as it found it
+	for c := range mi.comps {
+		if e.isLockGhost(c) {
+			delete(mi.comps, c)
+		}
+	}
 	e.modMemo[fn] = mi
 	return mi
 }
@@ -269,9 +276,6 @@ func (e *Engine) parseTypeIn(pkg string, s string) (t types.Type, err error) {
 func (e *Engine) scanBlocks(fn *ssa.Function, blocks []*ssa.BasicBlock, mi *modInfo, busy map[*ssa.Function]bool) {
 	for _, b := range blocks {
 		for _, in := range b.Instrs {
-			if mi.all {
-				return
-			}
 			switch x := in.(type) {
 			case *ssa.Store:
 				e.scanStore(x.Addr, mi)
@@ -535,21 +539,50 @@ func (fr *Frame) lockCheck(a Val, write bool) {
 	if g == nil {
 		return
 	}
+	acc := "read"
+	if write {
+		acc = "write"
+	}
+	if g.Read != nil {
+		env := fr.envAt(fr.block, fr.idx, fr.cur.st, nil)
+		if p := e.pkgTypes(g.Pkg); p != nil {
+			env.pkg = p
+		}
+		env.lookup = nil
+		if t := e.globalType("*" + g.Type); t != nil {
+			env.names["this"] = Val{T: a.Src.base, Ty: t}
+		}
+		ex := g.Read
+		if write {
+			ex = g.Write
+		}
+		t, err := env.Bool(ex)
+		if err != nil {
+			e.unsupported = append(e.unsupported, fmt.Sprintf("%s: protects clause of %s: %v", fr.prefix, g.Type, err))
+			return
+		}
+		fr.oblige("lock", acc+"("+a.Src.skey+"."+a.Src.fname+")", sOr(t, "(> "+a.Src.base+" "+e.alloc0+")"))
+		return
+	}
 	held := e.comp("ghost$held", "(Array Int Bool)")
 	rheld := e.comp("ghost$rheld", "(Array Int Bool)")
-	s, _ := e.structs[a.Src.skey]
-	_ = s
 	mu := e.fa(a.Src.skey, g.Mu, a.Src.base)
 	cond := "(select " + e.get(fr.cur.st, held) + " " + mu + ")"
 	if !write && g.RW {
 		cond = sOr(cond, "(select "+e.get(fr.cur.st, rheld)+" "+mu+")")
 	}
+	if g.Also != "" {
+		if gv, ok := e.specs.Ghosts[g.Also]; ok {
+			also := e.get(fr.cur.st, e.comp("ghost$"+gv.Name, gv.Sort))
+			if write {
+				cond = sAnd(cond, also)
+			} else {
+				cond = sOr(cond, also)
+			}
+		}
+	}
 	// objects created by this function are not shared yet
 	cond = sOr(cond, "(> "+a.Src.base+" "+e.alloc0+")")
-	acc := "read"
-	if write {
-		acc = "write"
-	}
 	fr.oblige("lock", acc+"("+a.Src.skey+"."+a.Src.fname+")", cond)
 }
 
@@ -689,6 +722,21 @@ func (fr *Frame) callCommon(cc *ssa.CallCommon, args []Val, fv Val, res ssa.Valu
 	name := e.fnName(callee)
 	fr.assertAtCall(name, args, callee.Signature)
 	fr.effectCheckCallee(callee, name)
+	if (name == "(*sync.Mutex).Lock" || name == "(*sync.Mutex).Unlock" || name == "(*sync.RWMutex).Lock" || name == "(*sync.RWMutex).Unlock") && len(args) > 0 {
+		for _, ls := range e.specs.LockSets {
+			pfx := "(" + sym("fa$"+shortPath(ls.Type)+"$"+ls.Mu) + " "
+			if strings.HasPrefix(args[0].T, pfx) {
+				if gv, ok := e.specs.Ghosts[ls.Ghost]; ok {
+					c := e.comp("ghost$"+gv.Name, gv.Sort)
+					if strings.HasSuffix(name, ".Lock") {
+						e.set(fr.cur.st, c, "true")
+					} else {
+						e.set(fr.cur.st, c, "false")
+					}
+				}
+			}
+		}
+	}
 	sp := e.specs.Funcs[name]
 	if recv := callee.Signature.Recv(); recv != nil && len(args) > 0 {
 		if _, isPtr := recv.Type().Underlying().(*types.Pointer); isPtr && (sp == nil || !sp.Attrs["nilrecv-ok"]) {
@@ -1248,6 +1296,9 @@ func (fr *Frame) builtin(b *ssa.Builtin, cc *ssa.CallCommon, args []Val, resT ty
 		m, k := args[0], args[1]
 		mt := m.Ty.Underlying().(*types.Map)
 		dom, _ := e.mapComps(mt)
+		if m.From != nil {
+			fr.lockCheck(Val{Src: m.From}, true)
+		}
 		fr.checkFrame(dom, m.T, "delete")
 		d := e.get(st, dom)
 		e.set(st, dom, fmt.Sprintf("(store %s %s (store (select %s %s) %s false))", d, m.T, d, m.T, k.T))
@@ -1461,4 +1512,16 @@ func (fr *Frame) effectCheckCallee(callee *ssa.Function, name string) {
 			fr.oblige("effect", k+"@"+shortName(name), sNot(fr.cur.reach))
 		}
 	}
+}
+
+func (e *Engine) isLockGhost(c string) bool {
+	if c == "ghost$held" || c == "ghost$rheld" {
+		return true
+	}
+	for _, ls := range e.specs.LockSets {
+		if c == "ghost$"+ls.Ghost {
+			return true
+		}
+	}
+	return false
 }
